@@ -1068,6 +1068,12 @@ class Gen:
             elif kind == 'end':
                 # just before the closing brace of the body (bodies that end with a statement)
                 inserts.setdefault(len(body_lines) - 1, []).extend(slines)
+                if 'all-exits' in args:
+                    # ... and before every statement-form `return ..;` (an early return added by a refactoring reaches its own
+                    # copy of the hints; hints may only name self / parameters / ghost variables declared at `start`)
+                    for k, l in enumerate(bm_lines):
+                        if re.match(r'^\s*return\b[^;]*;\s*$', l):
+                            inserts.setdefault(k, []).extend(slines)
             elif kind == 'tail':
                 # before the single-line tail expression of the body
                 k = len(body_lines) - 2
